@@ -156,8 +156,8 @@ class Interp(object):
         self.max_steps = max_steps
 
     # ------------------------------------------------------------------ driver
-    def run(self, f, init):
-        """init(interp, frame) prepares the entry frame. Returns list of Path."""
+    def run(self, f, init, body=None):
+        """init(interp, frame) prepares the entry frame. Returns list of Path. body: interpret this sub-statement of f only."""
         results = []
         work = [[]]
         while work:
@@ -172,7 +172,11 @@ class Interp(object):
             fr = Frame(f)
             init(self, fr)
             try:
-                self.exec_body(fr)
+                if body is None:
+                    self.exec_body(fr)
+                else:
+                    self.frames = {id(fr): fr}
+                    self.exec(fr, body, 0)
                 self.path.outcome = ('RET', None)
                 self.path.actions.append(('RET', None))
             except Ret as r:
@@ -755,7 +759,7 @@ class Interp(object):
                 return int_conv(~v, t)
             if op == '+':
                 return v
-        return TOP
+        return self.model.unary(self, fr, n, op, v)
 
     def add(self, v, delta, t):
         if isinstance(v, Pos):
@@ -950,6 +954,10 @@ class Model(object):
         pass
 
     def member_value(self, it, fr, n, base):
+        return TOP
+
+    def unary(self, it, fr, n, op, v):
+        """unary operator on a non-constant abstract value"""
         return TOP
 
     def address_of(self, it, fr, sub, depth):
